@@ -184,6 +184,23 @@ Section C17.
     forall key cs s, fst (run_calls E key s cs) = map (fresh_call E key) cs.
   Proof. exact (run_calls_stateless E). Qed.
 
+  (** A REJECTED decryption leaves the packet object as it was (every level, every key), so one
+      frame object can be tried under a ring of keys (ZigbeeDecryptor, the candidate keys of
+      APSManager.decrypt): a wrong key tried first does not change what the right key yields. *)
+  Theorem C17_decrypt_reject_unchanged :
+    forall key f g, decrypt E key f = Ok (g, false) -> g = f.
+  Proof. exact (decrypt_reject_unchanged E). Qed.
+
+  Theorem C17_ring_decrypt_object_independent :
+    forall keys f, ring_decrypt E keys f = ring_decrypt_pure E keys f.
+  Proof. exact (ring_decrypt_pure_eq E). Qed.
+
+  Theorem C17_ring_wrong_key_first :
+    forall wrong key f g,
+    status_of (decrypt E wrong f) = false -> (exists r b, decrypt E wrong f = Ok (r, b)) ->
+    decrypt E key f = Ok (g, true) -> ring_decrypt E [wrong; key] f = Ok (Some g).
+  Proof. exact (ring_wrong_key_first E). Qed.
+
   (** ------------------------------------------------------------------------------------
       EXTENSIONS of the model beyond the property's quantifier ("security levels 5..7 and the
       on-air level-0 convention").  Not obligations of C17; kept apart and prefixed [C17_ext_].
